@@ -95,6 +95,12 @@ def sources(tier, seed):
         out.append((f"C19 fast group seed {base + i}", "c19", base + i))
     for k in range(6):
         out.append((f"helper program {k}", "helper", k))
+    for op in ("<", "<=", ">", ">="):
+        for n in (1, 2, 14, 60, 1499):
+            if op in ("<", ">=") and n == 1 and False:
+                continue
+            out.append((f"packet guard: packetSize {op} {n}, access to the "
+                        "last byte it promises", "guard", (op, n)))
     for name in ("AnalogInput", "AnalogOutput", "DigitalInput",
                  "DigitalOutput", "RandomOutput", "Counter",
                  "RandomDropper", "Motor0", "Motor1", "Motor2", "several"):
@@ -193,12 +199,12 @@ def build(kind, arg):
             if k == 0:
                 e.t = ebpf.ktime(e)
             elif k == 1:
-                e.rr = ebpf.prandom(e)
+                e.rr = ebpf.prandom(e) & 0xffff
             elif k == 2:
                 e.loc = ebpf.ktime(e)
                 e.d = ebpf.ktime(e) - e.loc
             elif k == 3:
-                with ebpf.prandom(e) & 1 as Else:
+                with ebpf.prandom(e) & 0xffff < 100 as Else:
                     e.rr = 1
                 with Else:
                     e.rr = 2
@@ -206,9 +212,33 @@ def build(kind, arg):
                 e.r3 = ebpf.ktime(e)
                 e.t = e.r3 + e.t * 3
             else:
-                e.d = ebpf.prandom(e) * 7 + ebpf.ktime(e)
+                e.d = (ebpf.prandom(e) & 0xff) * 7 + ebpf.ktime(e)
         e, code, maps = dsl.build(ns, body)
         return code, maps, None
+    if kind == "guard":
+        import operator
+        op, n = arg
+        last = n if op in (">", "<=") else n - 1
+        cmp_ = {"<": operator.lt, "<=": operator.le, ">": operator.gt,
+                ">=": operator.ge}[op]
+        m = dsl._am.ArrayMap()
+        ns = dict(themap=m, out=m.globalVar("B"))
+
+        def program(self):
+            if op in (">", ">="):
+                with cmp_(self.packetSize, n) as p:
+                    self.out = p.pB[last]
+                    p.pB[last] = 7
+            else:
+                with cmp_(self.packetSize, n) as p:
+                    self.out = 1
+                with p.Else:
+                    self.out = p.pB[last]
+                    p.pB[last] = 7
+            self.exit(dsl.xdp.XDPExitCode.PASS)
+        ns["program"] = program
+        e, code, maps = dsl.build(ns, None, base=dsl.xdp.XDP, finish=False)
+        return code, maps, 1600
     if kind == "device":
         return build_device(arg)
     if kind == "dispatcher":
@@ -384,6 +414,9 @@ def check_one(label, kind, arg, q, res):
         if kind == "c07" and arg.get("N") == 0 and \
                 "outside of the packet" in log:
             sig = "C05|packet guard of zero bytes"
+        if kind == "guard" and tuple(arg) in ((">=", 1), (">", 0)) and \
+                "outside of the packet" in log:
+            sig = "C05|packet guard of zero bytes"   # emitted as `> 0`
         res["violations"].append(dict(
             signature=sig,
             what=f"{label}: the generator assembles the program but the "
